@@ -60,10 +60,14 @@ type Report struct {
 }
 
 func NewReport(prop, tier string) *Report {
-	return &Report{Property: prop, Tier: tier, Floors: map[string]int{}, Extra: map[string]interface{}{}, start: time.Now()}
+	return &Report{Property: prop, Tier: tier, Floors: map[string]int{}, Extra: map[string]interface{}{}, start: time.Now(),
+		Notes:   []string{},
+		Trusted: []string{"go/packages, go/types, go/ssa, callgraph/vta of golang.org/x/tools v0.29.0", "the Go compiler front end agreeing with go/types", "math/big, constbn, crypto/* and user callbacks are not analysed (contracts assumed)"},
+		Assume:  []string{"facts are must-facts: 'the success edge of check X was passed on every path to this point within the current API call'", "dynamic calls are resolved with the VTA call graph (sound for the two packages; reflection and unsafe are not followed)"}}
 }
 
 func (r *Report) add(rule, key, what, pos string, st Status, detail string, path ...string) *Obligation {
+	key = strings.ReplaceAll(key, " ", "_")
 	o := &Obligation{Rule: rule, Key: key, What: what, Pos: pos, status: st, Status: st.String(), Detail: detail, Path: path, Config: r.cfg}
 	r.Obs = append(r.Obs, o)
 	return o
@@ -231,9 +235,11 @@ func (r *Report) Finish(verifDir string, seed int) int {
 		rp := filepath.Join(violDir, fmt.Sprintf("%s-%d.json", r.Property, nviol))
 		b, _ := json.MarshalIndent(map[string]interface{}{"property": r.Property, "obligation": o}, "", " ")
 		_ = os.WriteFile(rp, b, 0o644)
-		fmt.Printf("  [%s] rule=%s key=%s at %s: %s — %s\n", o.Status, o.Rule, o.Key, o.Pos, o.What, o.Detail)
-		for _, p := range o.Path {
-			fmt.Printf("      %s\n", p)
+		if nviol <= 40 {
+			fmt.Printf("  [%s] rule=%s key=%s at %s: %s — %s\n", o.Status, o.Rule, o.Key, o.Pos, o.What, o.Detail)
+			for _, p := range o.Path {
+				fmt.Printf("      %s\n", p)
+			}
 		}
 		fmt.Printf("VIOLATION property=%s replay=%s\n", r.Property, rp)
 	}
